@@ -260,6 +260,25 @@ impl<'a> Sim<'a> {
                 return None;
             }
         }
+        // an invite created from a third-party invite does not need its sender's server's
+        // signature: sometimes only another server signs it
+        let is_tpi_invite = d.ty == "m.room.member"
+            && d.content.get("membership").and_then(|m| m.as_str()) == Some("invite")
+            && d.content.get("third_party_invite").is_some_and(|x| x.as_obj().is_some());
+        if is_tpi_invite && self.servers.len() > 1 && self.t.chance(1, 3) {
+            let mut other = self.t.index(self.servers.len() - 1);
+            if other >= n {
+                other += 1;
+            }
+            if self.servers[other].up {
+                j.set("signatures", J::obj());
+                if !self.countersign(other, &mut j) {
+                    return None;
+                }
+                self.bump("sign.tpi-invite-without-sender-signature");
+                self.flag("c03.tpi-exemption");
+            }
+        }
         let HashResult::Ok(id) = revent::event_id(&j, v) else { return None };
         let text = rj::canonical(&j);
         // observer's books
